@@ -25,8 +25,6 @@ var boundsTable = map[string]tabEntry{
 		"guarded by (i+1)*m < lInputs and len(acc) == lInputs is an invariant of the splice"},
 	"queryer.(*MultiOpQueryer).Query$2/‹[]map[string]interface{}›[0:‹*queryer.chunkResponse›.Index*‹*queryer.MultiOpQueryer›.maxBatchSize]": {1,
 		"i*m <= lInputs = len(acc) (chunk arithmetic, hand argument)"},
-	"queryer.(*MultiOpQueryer).queryBatch/‹[]map[string]interface{}›[‹[]int›[‹int›]]": {1,
-		"toFetchIndexes holds indices recorded from `range inputs`; results is made with len(inputs)"},
 	"merger.(ExtendMergerFunc).Merge/‹[]*github.com/vektah/gqlparser/v2/ast.Schema›[‹int›]": {1,
 		"schemas has i+1 elements when ranging inputs[1:] at index i (one append per iteration, initial length 1)"},
 	"merger.mergeCustomObjectFields/‹github.com/vektah/gqlparser/v2/ast.FieldList›[‹int›]": {1,
